@@ -18,7 +18,9 @@ purpose is in design.d/C19.md, every construct is run through Python and Lean by
                `d["k"] = e` (d a local dictionary created by a literal in this function), `if/elif/else`, `return e`
                (every path must end in a `return`, except in functions declared `unit`), `raise Cls("…")` -> `throw`,
                `with <declared context manager>:` (body in place), calls of declared log functions (dropped), calls of
-               declared actions, `a, b = <opaque>` (names for atoms), and four shapes of `for`:
+               declared actions, single statements pinned verbatim that stand for an action (`spec.stmts`),
+               `a, b = <opaque>` (names for atoms), locals of one branch (assigned and used inside it only), and four
+               shapes of `for`:
                  over a literal list (unrolled) | `if c: return e` (List.find?) |
                  flag with `break` and `else: flag = False` (List.any) | updates of one local (List.foldl)
   expressions  str / bool / None / int constants, tuples, `{"k": "v", ...}` and `[…]` literals, names of parameters and
@@ -41,8 +43,9 @@ purpose is in design.d/C19.md, every construct is run through Python and Lean by
 What is trusted (to be listed in the trusted base of a property that uses this module):
   * this translator (about 1100 lines): that the `do` block it prints means what the Python means on the subset above,
     in particular: Lean hoists `(<- d.getItem k)` to the front of the enclosing statement in left-to-right order, which
-    is Python's evaluation order because effects (dictionary reads, atoms that may raise) are refused in short-circuited
-    positions and inside loop bodies / comprehensions; dictionaries are values in Lean, which is Python's meaning
+    is Python's evaluation order because effects (dictionary reads, atoms that may raise) behind `and` / `or` are
+    computed by statements in front (`let mut pyTmp := a; if !pyTmp then pyTmp := (<- action)`) and are refused in
+    conditional expressions, `elif` tests, loop bodies and comprehensions; dictionaries are values in Lean, which is Python's meaning
     because aliasing a dictionary is refused; a set is represented by a list of which only emptiness is observed;
     loops are combinators whose element functions are pure; a local declared in front of an `if` with a default value
     is assigned on every path before it is read;
@@ -188,13 +191,16 @@ class Spec:
                 any other text = the monad itself, e.g. "StateT FS (Except Err)"
     prelude     Lean lines printed before the definition (helper definitions the atom table refers to; trusted with it)
     local_types {name: type} for locals whose first value is the empty list `[]`
+    stmts       {python source of ONE statement: Lean action}: a statement pinned verbatim that stands for an action of the
+                function's monad (`self.should_rerun = lambda _: False` -> `set true`); it may contain what is refused
+                elsewhere (attribute stores, lambdas)
     type_defaults {opaque Lean type: a value of it}: values of these types may be compared with `==` (the type has a lawful
                 `BEq`) and locals of these types may be first assigned inside the branches of an `if`
     """
 
     def __init__(self, lean_name, binders, params, ret, atoms=None, blocks=None, monad="pure", doc="", calls=None,
                  assign_blocks=None, raises=None, ignored_calls=(), transparent_with=(), fields=None, prims=None,
-                 prelude=(), local_types=None, type_defaults=None):
+                 prelude=(), local_types=None, type_defaults=None, stmts=None):
         self.lean_name = lean_name
         self.binders = list(binders)
         self.params = dict(params)
@@ -211,6 +217,7 @@ class Spec:
         self.prelude = list(prelude)
         self.local_types = dict(local_types or {})
         self.type_defaults = dict(type_defaults or {})
+        self.stmts = {norm_block(k): v for k, v in (stmts or {}).items()}
         self.monad = monad
         self.doc = doc
 
@@ -284,10 +291,13 @@ class _Fn:
         self.lam = 0            # > 0 inside a Lean lambda: nothing monadic may be emitted there
         self.pending = {}       # names declared in front of an enclosing `if`: name -> [line index, type | None, depth]
         self.logseen = set()    # log-only locals assigned so far
+        self.blocks_open = []   # the statement lists being translated: [(stmts, names declared inside)]
         self.assigned = self._assigned_names(fn)
         self.loopvars = self._loop_targets(fn)
         self.logonly = self._log_only_names()
-        self.uses = {"atoms": set(), "blocks": set(), "assign_blocks": set(), "calls": set(), "raises": set()}
+        self.uses = {"atoms": set(), "blocks": set(), "assign_blocks": set(), "calls": set(), "raises": set(),
+                     "stmts": set()}
+        self.ntmp = 0
         args = fn.args
         if args.vararg or args.kwarg or args.kwonlyargs or args.posonlyargs:
             raise Unsupported(f"{fn.name}: *args / **kwargs / keyword-only / positional-only parameters")
@@ -304,10 +314,15 @@ class _Fn:
                 if isinstance(x, ast.Name) and x.id in self.assigned and x.id not in self.loopvars:
                     raise Unsupported(f"{fn.name}: the atom `{key}` mentions {x.id!r}, which the function assigns")
 
-    @staticmethod
-    def _assigned_names(fn):
+    def _assigned_names(self, fn):
         out = {}
+        pinned = set()
         for n in ast.walk(fn):
+            if isinstance(n, ast.stmt) and n is not fn and dump_stmts([n]) in self.spec.stmts:
+                pinned |= {id(x) for x in ast.walk(n)}
+        for n in ast.walk(fn):
+            if id(n) in pinned:
+                continue
             if isinstance(n, ast.Name) and isinstance(n.ctx, (ast.Store, ast.Del)):
                 out[n.id] = out.get(n.id, 0) + 1
             elif isinstance(n, (ast.FunctionDef, ast.AsyncFunctionDef, ast.ClassDef, ast.Lambda)) and n is not fn:
@@ -827,29 +842,49 @@ class _Fn:
                 return False
         done = False
         emitted = 0
-        for i, s in enumerate(stmts):
-            if done:
-                raise Unsupported(f"{self.fn.name}:{s.lineno}: statement after a return")
-            if i == 0 and top and isinstance(s, ast.Expr) and isinstance(s.value, ast.Constant) and isinstance(s.value.value, str):
-                continue                                    # docstring
-            n0 = len(self.lines)
-            done = self.stmt(s, depth, top)
-            emitted += len(self.lines) - n0
+        self.blocks_open.append((stmts, []))
+        try:
+            for i, s in enumerate(stmts):
+                if done:
+                    raise Unsupported(f"{self.fn.name}:{s.lineno}: statement after a return")
+                if i == 0 and top and isinstance(s, ast.Expr) and isinstance(s.value, ast.Constant) and isinstance(s.value.value, str):
+                    continue                                    # docstring
+                n0 = len(self.lines)
+                done = self.stmt(s, depth, top)
+                emitted += len(self.lines) - n0
+        finally:
+            for name in self.blocks_open.pop()[1]:
+                del self.locals[name]                       # a local of this branch: unknown outside
         if emitted == 0:
             self.emit(depth, "pure ()")
         return done
+
+    def _branch_local(self, name):
+        """every occurrence of `name` in the function lies in the branch that is being translated"""
+        if not self.blocks_open or self.lam:
+            return False
+        inside = {id(x) for st in self.blocks_open[-1][0] for x in ast.walk(st)}
+        return all(id(x) in inside for x in ast.walk(self.fn) if isinstance(x, ast.Name) and x.id == name)
 
     def stmt(self, s, depth, top):
         where = f"{self.fn.name}:{s.lineno}"
         if isinstance(s, ast.Pass):
             return False
+        if self.spec.stmts:
+            key = dump_stmts([s])
+            if key in self.spec.stmts:
+                if self.lam or not self.spec.monadic:
+                    raise Unsupported(f"{where}: the pinned action `{ast.unparse(s)[:60]}` in a pure position")
+                self.uses["stmts"].add(key)
+                self.emit(depth, self.spec.stmts[key])
+                return False
         if isinstance(s, ast.Return):
             if s.value is None or (isinstance(s.value, ast.Constant) and s.value.value is None and self.spec.ret == "unit"):
                 if self.spec.ret != "unit":
                     raise Unsupported(f"{where}: bare return")
                 self.emit(depth, "return ()")
                 return True
-            t, ty = self.expr(s.value)
+            t, ty = self._expr_or_lowered(s.value, depth, where)
             if ty != self.spec.ret:
                 raise Unsupported(f"{where}: returns a {ty}, the spec says {self.spec.ret}")
             self.emit(depth, f"return {t}")
@@ -950,7 +985,10 @@ class _Fn:
             self.emit(depth, f"{lean_ident(name)} := {t}")
         else:
             if not top:
-                raise Unsupported(f"{where}: {name!r} is first assigned inside a branch (and not in every branch)")
+                if not self._branch_local(name):
+                    raise Unsupported(f"{where}: {name!r} is first assigned inside a branch (and not in every branch), "
+                                      "and it is used outside that branch")
+                self.blocks_open[-1][1].append(name)
             self.locals[name] = ty
             self.emit(depth, f"let mut {lean_ident(name)} : {lean_type(ty)} := {t}")
         return False
@@ -964,7 +1002,7 @@ class _Fn:
         if isinstance(value, ast.List) and not value.elts and name in self.spec.local_types:
             return self._store(name, "[]", self.spec.local_types[name], depth, top, where, value)
         try:
-            t, ty = self.expr(value)
+            t, ty = self._expr_or_lowered(value, depth, where)
         except Unsupported:
             # an opaque right-hand side: allowed for a single top-level assignment; every use must then be an atom
             if top and self.assigned.get(name) == 1 and name not in self.locals and _opaque_ok(value):
@@ -972,6 +1010,46 @@ class _Fn:
                 return False
             raise
         return self._store(name, t, ty, depth, top, where, value)
+
+    # -- short circuits with effects: `a or <action>` evaluates the action only when `a` is false.  Lean would hoist
+    #    `(← action)` to the front of the statement, so such an expression is computed by statements in front:
+    #        let mut pyTmp1 : Bool := a
+    #        if (!pyTmp1) then
+    #          pyTmp1 := (← action)
+
+    def _expr_or_lowered(self, node, depth, where):
+        n0, ntmp = len(self.lines), self.ntmp
+        try:
+            return self.expr(node)
+        except Unsupported as e:
+            if not (isinstance(node, ast.BoolOp) and self.spec.monadic and not self.lam):
+                raise
+            first = e
+        try:
+            return self._lower_bool(node, depth, where), "bool"
+        except Unsupported:
+            del self.lines[n0:]
+            self.ntmp = ntmp
+            raise first
+
+    def _lower_bool(self, node, depth, where):
+        """Lean text of a Boolean for `node` (and/or of Booleans), emitting statements in front of the current one"""
+        if not isinstance(node, ast.BoolOp) or self.atom(node) is not None:
+            t, ty = self.expr(node)
+            if ty != "bool":
+                raise Unsupported(f"{where}: operand `{ast.unparse(node)[:60]}` of and/or is a {ty}, not a Boolean")
+            return t
+        if self.lam or not self.spec.monadic:
+            raise Unsupported(f"{where}: `{ast.unparse(node)[:60]}`: an effect behind and/or in a pure position")
+        self.ntmp += 1
+        tmp = f"pyTmp{self.ntmp}"
+        t0 = self._lower_bool(node.values[0], depth, where)
+        self.emit(depth, f"let mut {tmp} : Bool := {t0}")
+        for v in node.values[1:]:
+            self.emit(depth, f"if {tmp if isinstance(node.op, ast.And) else '(!' + tmp + ')'} then")
+            tv = self._lower_bool(v, depth + 1, where)
+            self.emit(depth + 1, f"{tmp} := {tv}")
+        return tmp
 
     def _unpack(self, names, value, top, where):
         """`a, b = <opaque>` at the top level: `a` / `b` stand for `<opaque>[0]` / `<opaque>[1]` inside atoms"""
@@ -1053,7 +1131,15 @@ class _Fn:
                 self.pending[name] = [len(self.lines), None, depth]
                 self.lines.append(None)
                 mine.append(name)
-        c = self.cond(s.test)
+        if kw == "if":
+            try:
+                c = self.cond(s.test)
+            except Unsupported:
+                if not isinstance(s.test, ast.BoolOp):
+                    raise
+                c = self._lower_bool(s.test, depth, f"{self.fn.name}:{s.lineno}")
+        else:
+            c = self.cond(s.test)
         self.emit(depth, f"{kw} {c} then")
         self.block(s.body, depth + 1)
         if s.orelse:
@@ -1388,6 +1474,8 @@ def translate(fn, spec, consts=None):
     unused = sorted(set(range(len(spec.assign_blocks))) - tr.uses["assign_blocks"])
     if unused:
         raise Unsupported(f"{fn.name}: pinned assigning block(s) {unused} do not occur as branch bodies any more")
+    if set(spec.stmts) - tr.uses["stmts"]:
+        raise Unsupported(f"{fn.name}: {len(set(spec.stmts) - tr.uses['stmts'])} pinned statement(s) do not occur any more")
     unused = sorted(set(range(len(spec.raises))) - tr.uses["raises"])
     if unused:
         raise Unsupported(f"{fn.name}: declared exception(s) {[spec.raises[i][:2] for i in unused]} are not raised any more")
@@ -1667,10 +1755,44 @@ FILTERED_SPEC = Spec(
     doc="`TestNode.shared_filtered_results` of avocado_i2n/cartgraph/node.py (`started` = `self.started_worker`)")
 
 
+RUN_PRELUDE = [
+    "/-- `self.should_rerun(worker)` inside `default_run_decision`: the state is whether the instance attribute",
+    "`should_rerun` has been replaced by `lambda _: False` -/",
+    "def rerunM (c : Cfg) (w : Worker) (shared : List Result) : StateT Bool (Except Err) Bool :=",
+    "  fun disabled => if disabled then .ok (false, disabled) else (genShouldRerun c (some w) shared).map (fun b => (b, disabled))",
+]
+
+RUN_SPEC = Spec(
+    "genDefaultRunDecision",
+    binders=[("c", "Cfg"), ("w", "Worker"), ("shared", "List Result"), ("finished", "Bool"), ("scanRun", "Bool")],
+    params={"worker": None}, ret="bool", monad="StateT Bool (Except Err)",
+    atoms={
+        "self.params.get('dry_run', 'no')": ("(c.dryRun.getD \"no\")", "str"),
+        "self.is_flat()": ("c.flat", "bool"),
+        "len(self.cloned_nodes) > 0": ("c.cloneSource", "bool"),
+        "worker.id": ("w.id", "str"),
+        "self.params['name']": ("c.name", "str"),
+        "len(self.get_stateful_objects()) == 0": ("(!c.stateful)", "bool"),
+        "len(self.shared_results) == 0": ("shared.isEmpty", "bool"),
+        "len(self.shared_filtered_results) == 0": ("(genFilteredResults c c.startedWorker shared).isEmpty", "bool"),
+        "self.is_finished(worker, 1)": ("finished", "bool"),
+        "self.scan_states()": ("scanRun", "bool"),
+        "self.should_rerun(worker)": ("rerunM c w shared", "bool", "raises"),
+    },
+    stmts={"self.should_rerun = lambda _: False": "set true"},
+    raises=[("RuntimeError", "Worker {} should not try to run", "Err.runtimeError")],
+    ignored_calls={"logging.debug", "logging.info", "logging.warning"},
+    prelude=RUN_PRELUDE,
+    doc="`TestNode.default_run_decision` of avocado_i2n/cartgraph/node.py.  `finished` = `self.is_finished(worker, 1)`, "
+        "`scanRun` = the outcome of `self.scan_states()`; the state of the monad is whether `self.should_rerun` has been "
+        "replaced by `lambda _: False`")
+
+
 def rules_source(path=None):
     path = path or _src("PYGEN_NODE_SRC", "avocado_i2n/cartgraph/node.py")
     defs = [generate(path, "TestNode.shared_filtered_results", FILTERED_SPEC),
-            generate(path, "TestNode.should_rerun", RERUN_SPEC)]
+            generate(path, "TestNode.should_rerun", RERUN_SPEC),
+            generate(path, "TestNode.default_run_decision", RUN_SPEC)]
     defs[0] = RULES_PRELUDE + [""] + defs[0]
     defs[1] = defs[1][len(RULES_PRELUDE) + 1:]
     return render_file("harness/pygen.py:extract_rules (called by harness/props/c10.py:extract) from "
@@ -1763,8 +1885,69 @@ def extract_transfer(ctx=None):
     return write_if_changed(_lean_path("GenTransfer.lean"), transfer_source())
 
 
+# ---- TestNode.default_clean_decision (C05): the tests in front of the "close the door" loop ---------------------------
+
+CLEAN_DOOR_BLOCK = (
+    'for picked_worker in self.shared_involved_workers:\n'
+    "    if worker.swarm_id != 'localhost' and worker.swarm_id not in picked_worker.id:\n"
+    '        continue\n'
+    "    if self.is_flat() or picked_worker.id in self.params['name']:\n"
+    '        picked_node = self\n'
+    '    else:\n'
+    '        for node in self.bridged_nodes:\n'
+    "            if picked_worker.id in node.params['name']:\n"
+    '                picked_node = node\n'
+    '                break\n'
+    '        else:\n'
+    "            raise ValueError(f'Cannot identify picked node for involved worker {picked_worker} instead of the composite {self} to consider for cleanup')\n"
+    '    if not picked_node.is_cleanup_ready(picked_worker):\n'
+    "        logging.debug(f'Node is not cleanup ready for {picked_worker.id}')\n"
+    '        return False\n'
+    "    test_statuses = [r['status'].lower() for r in picked_node.results]\n"
+    "    if 'unknown' in test_statuses:\n"
+    "        logging.debug(f'A worker {picked_worker.id} is still running node which cannot yet be reversed')\n"
+    '        return False\n'
+    'return self.is_finished(worker, -1)\n'
+)
+
+_OBJ_PARAMS = "test_object.object_typed_params(self.params)"
+
+
+def _clean_spec(node_path):
+    return Spec(
+        "genCleanDecision",
+        binders=[("dryRun", "Bool"), ("flat", "Bool"), ("cloneSource", "Bool"), ("idIn", "Bool"), ("objs", "List String"),
+                 ("imagesMode", "String → String"), ("vmsMode", "String → String"), ("door", "Except String Bool")],
+        params={"worker": None}, ret="bool", monad="Except String",
+        atoms={"self.params.get('dry_run', 'no') == 'yes'": ("dryRun", "bool"),
+               "self.is_flat()": ("flat", "bool"),
+               "len(self.cloned_nodes) > 0": ("cloneSource", "bool"),
+               "worker.id in self.params['name']": ("idIn", "bool"),
+               "self.objects": ("objs", "slist"),
+               f"{_OBJ_PARAMS}.get('unset_mode_images', {_OBJ_PARAMS}['unset_mode'])[0]": ("(imagesMode test_object)", "str"),
+               f"{_OBJ_PARAMS}.get('unset_mode_vms', {_OBJ_PARAMS}['unset_mode'])[0]": ("(vmsMode test_object)", "str")},
+        blocks=[(CLEAN_DOOR_BLOCK, "(← door)", "bool")],
+        raises=[("RuntimeError", "Worker {} should not try to clean", '"RuntimeError"')],
+        ignored_calls={"logging.debug", "logging.info"},
+        doc="`TestNode.default_clean_decision` of avocado_i2n/cartgraph/node.py: the tests in front of the loop over the "
+            "involved workers.  `objs` = the node's objects, `imagesMode o` / `vmsMode o` = the first character of "
+            "`unset_mode_images` / `unset_mode_vms` (default `unset_mode`) of object `o`, `door` = the pinned loop "
+            "(what it returns or raises)")
+
+
+def clean_source(path=None):
+    path = path or _src("PYGEN_NODE_SRC", "avocado_i2n/cartgraph/node.py")
+    d = generate(path, "TestNode.default_clean_decision", _clean_spec(path))
+    return render_file("harness/pygen.py:extract_clean (called by harness/props/c05.py:extract) from "
+                       "avocado_i2n/cartgraph/node.py", [], "I2N.Extracted.GenClean", [], [d])
+
+
+def extract_clean(ctx=None):
+    return write_if_changed(_lean_path("GenClean.lean"), clean_source())
+
+
 SOURCES = {"tunnel": tunnel_source, "scope": scope_source, "pool": pool_source, "rules": rules_source,
-           "transfer": transfer_source}
+           "transfer": transfer_source, "clean": clean_source}
 
 if __name__ == "__main__":
     import sys
